@@ -41,7 +41,7 @@ sweep(void)
 	for (int i = 0; i < MAXU; i++)
 		if (uaio_used[i] && is_recv[i] && KDONE(i) && KRESULT(i) == 0 && !noted[i]) {
 			noted[i]   = 1;
-			nni_msg *m = nni_aio_get_msg(&uaio[i]);
+			nni_msg *m = nni_aio_get_msg(&uaio_at(i));
 			CHECK(m != NULL, "successful receive carries a message");
 			int w = widx(m->id);
 			CHECK(w >= 0, "a received message came from a peer (never echoed from this socket's own send)");
@@ -56,7 +56,7 @@ sweep(void)
 #endif
 			}
 			nni_msg_free(m);
-			nni_aio_set_msg(&uaio[i], NULL);
+			nni_aio_set_msg(&uaio_at(i), NULL);
 		}
 }
 static void
@@ -66,7 +66,7 @@ monitor(void)
 	sweep();
 	for (int i = 0; i < MAXU; i++)
 		if (uaio_used[i])
-			CHECK(env_aio_completed(&uaio[i]) <= 1, "operation completes at most once");
+			CHECK(env_aio_completed(&uaio_at(i)) <= 1, "operation completes at most once");
 	if (!sock_closed)
 		CHECK(nni_atomic_get_bool(&sock.can_recv.p_raised) == !nni_lmq_empty(&sock.recv_msgs),
 		    "C15: receive poll state mirrors whether a message is buffered");
@@ -78,7 +78,10 @@ ev_attach(int p)
 	if (kstop)
 		return;
 	env_pipe_init(&kpipe[p], 100 + p, NNI_PROTO_BUS_V0);
-	memset(&pd[p], 0, sizeof(pd[p]));
+	{
+		static const __typeof__(pd[0]) pd_zero;
+		pd[p] = pd_zero; /* struct assignment keeps field sensitivity, memset does not */
+	}
 	CHECK(bus0_pipe_init(&pd[p], &kpipe[p], &sock) == 0, "pipe_init");
 	kpipe_up[p] = 1;
 	CHECK(bus0_pipe_start(&pd[p]) == 0, "pipe_start accepts a BUS peer");
@@ -105,9 +108,9 @@ do_send(int i, int blocking, int hdrpipe)
 		full[p]   = kpipe_up[p] && pd[p].busy && nni_lmq_full(&pd[p].send_queue);
 		sends0[p] = kpipe[p].sends;
 	}
-	nni_aio_set_msg(&uaio[i], umsg[i]);
-	env_aio_submit(&uaio[i]);
-	bus0_sock_send(&sock, &uaio[i]);
+	nni_aio_set_msg(&uaio_at(i), umsg[i]);
+	env_aio_submit(&uaio_at(i));
+	bus0_sock_send(&sock, &uaio_at(i));
 	CHECK(KDONE(i), "BUS send never blocks: it has completed when the call returns");
 #ifdef KF_BUS_NONBLOCK_EAGAIN
 	/* known finding F6b excluded: a non-blocking BUS send is refused with
@@ -115,18 +118,18 @@ do_send(int i, int blocking, int hdrpipe)
 	 * least fail cleanly: nothing offered to any peer, message left with the caller. */
 	if (!blocking) {
 		CHECK(KRESULT(i) == NNG_ETIMEDOUT, "known finding F6b: non-blocking BUS send reports EAGAIN");
-		CHECK(nni_aio_get_msg(&uaio[i]) == umsg[i], "C03: failed send leaves the message with the caller");
+		CHECK(nni_aio_get_msg(&uaio_at(i)) == umsg[i], "C03: failed send leaves the message with the caller");
 		for (int p = 0; p < MAXP; p++)
 			if (before[p])
 				CHECK(count_on_pipe(p, umsg_id[i]) == 0, "a refused send offers nothing to any peer");
 		nni_msg_free(umsg[i]);
-		nni_aio_set_msg(&uaio[i], NULL);
+		nni_aio_set_msg(&uaio_at(i), NULL);
 		monitor();
 		return;
 	}
 #endif
 	CHECK(KRESULT(i) == 0, "BUS send is accepted in every state, also when submitted non-blocking");
-	CHECK(nni_aio_get_msg(&uaio[i]) == NULL, "accepted send: message owned by the library");
+	CHECK(nni_aio_get_msg(&uaio_at(i)) == NULL, "accepted send: message owned by the library");
 	for (int p = 0; p < MAXP; p++) {
 		if (!before[p])
 			continue;
@@ -188,8 +191,8 @@ ev_recv(int i, int blocking)
 	bool can = !nni_lmq_empty(&sock.recv_msgs);
 	kuaio_prepare(i, blocking);
 	is_recv[i] = 1;
-	env_aio_submit(&uaio[i]);
-	bus0_sock_recv(&sock, &uaio[i]);
+	env_aio_submit(&uaio_at(i));
+	bus0_sock_recv(&sock, &uaio_at(i));
 	if (can)
 		CHECK(KDONE(i) && KRESULT(i) == 0, "receive succeeds at once when a message is buffered");
 	else if (!blocking)
@@ -234,8 +237,8 @@ ev_close(void)
 	for (int i = 0; i < MAXU; i++)
 		if (uaio_used[i]) {
 			CHECK(KDONE(i), "C10: socket close completes every pending operation");
-			if (KRESULT(i) != 0 && nni_aio_get_msg(&uaio[i]) != NULL) {
-				nni_msg_free(nni_aio_get_msg(&uaio[i]));
+			if (KRESULT(i) != 0 && nni_aio_get_msg(&uaio_at(i)) != NULL) {
+				nni_msg_free(nni_aio_get_msg(&uaio_at(i)));
 			}
 		}
 	bus0_sock_fini(&sock);
@@ -256,7 +259,6 @@ ev_close(void)
 void
 harness(void)
 {
-	memset(&sock, 0, sizeof(sock));
 #ifdef RAW
 	bus0_sock_init_raw(&sock, NULL);
 #else
